@@ -133,6 +133,7 @@ func (g *ops) stdReps() {
 }
 
 func run(c *vf.Ctx) {
+	c.RaceCompanion("the same group elements as operands", "golang.org/x/crypto/bn256.")
 	c.Rule("full grids (see header): 8-element sets per group (12 thorough) x all ordered pairs x operand forms and all triples for the group laws, " +
 		"scalar grid {0,1,2,n-1,n,n+1,2n-1,2^256-1,-1,-2,-s, seeded 256-bit and 64-bit classes} x every element x form for scalar multiplication, all scalar pairs for distributivity and (non-negative ones) bilinearity, " +
 		"16 points per group x every non-empty coordinate subset x {+kp, +1, zeroed} encodings, every length 0..400; " +
